@@ -260,7 +260,7 @@ theorem step_wf (a b : List Rat) (lmax0 : Int) (st : DW) (h : DWWF a b lmax0 st)
   obtain ⟨m1, ps, hr, hcur1, hlen1, hconts1, hpw, hmem⟩ := refineStep_spec st.m bens margin h.cur
     (fun c hc => by
       obtain ⟨d, hd⟩ := List.getElem?_of_mem hc
-      exact (h.geo d c hd).reset)
+      exact (h.geo d c hd).reset.ready)
     (fun c hc => by
       obtain ⟨d, hd⟩ := List.getElem?_of_mem hc
       exact ⟨_, _, _, _, (h.geo d c hd).til⟩)
@@ -382,5 +382,12 @@ theorem init_wf (lmin lmax : Nat) (a b : List Rat) (hlen : a.length = b.length) 
     have := t3 x hx
     rw [this.1, this.2]
     exact ⟨by omega, le_refl _⟩
+
+/-- the cursor effect of an evaluation (`evaluate_operation` ends with `clear_new_objects()`) does not influence the
+next `refine()` at all -/
+theorem step_evaluate (st : DW) (bens : List (List Rat)) (margin : Rat) (rebalancing : Bool)
+    (dec : Nat → Nat → Nat → Bool) : st.evaluate.step bens margin rebalancing dec = st.step bens margin rebalancing dec := by
+  unfold DW.step DW.evaluate
+  simp only [refineStep_clearNew]
 
 end SparseSpace
